@@ -8,8 +8,9 @@ A check can never turn a timeout into a verdict: timed-out or crashed jobs are c
 """
 import collections, json, os, re, sys, time
 
-VERIF = os.environ.get("VF_VERIF_DIR") or os.path.dirname(os.path.dirname(os.path.abspath(__file__)))
-KNOWN_FILE = os.path.join(VERIF, "KNOWN_FINDINGS.txt")
+HERE = os.path.dirname(os.path.dirname(os.path.abspath(__file__)))
+VERIF = os.environ.get("VF_OUT_DIR") or os.environ.get("VF_VERIF_DIR") or HERE   # where evidence/ and replays are written (self-validation runs point it elsewhere)
+KNOWN_FILE = os.path.join(HERE, "KNOWN_FINDINGS.txt")
 
 
 class Violation:
